@@ -51,8 +51,12 @@ CATALOGUE = [
     {"op": "pickle"},
     {"op": "count_filter", "cond": ["x", "<=", 3]},
     {"op": "cat_read"},
+    {"op": "filter", "cond": ["u", ">=", 9223372036854775808 + 4]},      # unsigned column above the signed range (converted statistics)
+    {"op": "filter", "cond": ["u", ">", 9223372036854775808 + 3]},
+    {"op": "filter_ts", "cond": ["d", ">=", 5]},                          # timestamp column (converted statistics)
+    {"op": "count_filter", "cond": ["u", "<", 9223372036854775808 + 8]},
 ]
-QUICK_PAIRS = [(0, 3), (3, 0), (2, 3), (3, 2), (7, 3), (3, 7), (1, 4), (4, 1), (5, 3), (8, 3), (10, 3), (3, 10)]
+QUICK_PAIRS = [(0, 3), (3, 0), (2, 3), (3, 2), (7, 3), (3, 7), (8, 3), (10, 3), (11, 12), (12, 11), (14, 13), (13, 12)]
 CHUNK = 150
 MAX_STEPS = 6000
 
@@ -63,7 +67,9 @@ def dataset(variant):
     f = np.array([0.5 * i if i % 5 else np.nan for i in range(n)], dtype="float64")
     t = np.array(["t%d" % (i % 4) for i in range(n)], dtype=object)
     c = pd.Categorical(["a", "b", "c"] * 4, categories=["c", "a", "b"])
-    df = pd.DataFrame({"x": x, "f": f, "t": pd.Series(t, dtype=object), "c": c})
+    u = (np.arange(n, dtype="uint64") + np.uint64(2 ** 63))
+    dts = (np.arange(n, dtype="int64") * 86400 * 10 ** 9).view("M8[ns]")
+    df = pd.DataFrame({"x": x, "f": f, "t": pd.Series(t, dtype=object), "c": c, "u": u, "d": dts})
     kw = {"row_group_offsets": 4, "stats": True}
     if variant == "hive":
         kw["file_scheme"] = "hive"
@@ -81,6 +87,9 @@ def run_op(op, pf):
         return pf.to_pandas(columns=list(op["cols"]))
     if k == "filter":
         return pf.to_pandas(filters=[tuple(op["cond"])])
+    if k == "filter_ts":
+        col, o, days = op["cond"]
+        return pf.to_pandas(filters=[(col, o, np.datetime64(days * 86400 * 10 ** 9, "ns"))])
     if k == "slice":
         return pf[op["i"]:op["j"]].to_pandas()
     if k == "iter":
@@ -234,7 +243,7 @@ def run_case(case):
                 if r:
                     r["k"] = k
                     return r
-                if s.preemptions_done and ("slice" in (CATALOGUE[a]["op"], CATALOGUE[b]["op"]) or "filter" in (CATALOGUE[a]["op"], CATALOGUE[b]["op"])):
+                if s.preemptions_done and any(o in ("slice", "filter", "filter_ts", "count_filter") for o in (CATALOGUE[a]["op"], CATALOGUE[b]["op"])):
                     sub_nt.append(str(k))
             labels.append("K_A:%s" % ("<500" if K < 500 else "<1500" if K < 1500 else "<3000" if K < 3000 else ">=3000"))
         elif kind == "points":
@@ -250,7 +259,7 @@ def run_case(case):
             r = _judge(ops, results, errors, baselines, pf, full, labels, "schedule %r" % (case["points"],))
             if r:
                 return r
-            if s.preemptions_done and any(CATALOGUE[o]["op"] in ("slice", "filter") for o in ops):
+            if s.preemptions_done and any(CATALOGUE[o]["op"] in ("slice", "filter", "filter_ts", "count_filter") for o in ops):
                 sub_nt.append("p%d" % s.preemptions_done)
             labels.append("preemptions:%d" % s.preemptions_done)
         else:
